@@ -240,7 +240,14 @@ structure Authorization where
   policyVersion : Nat
   authoritiesUsed : List AuthId
   unrestricted : Bool
+  /-- which stage of `authorize` produced the answer (the code's one-line `reason`, as a tag):
+  `inactive` | `suspended` | `explicit_deny` | `nothing_grants:<label>` | `needs_approvals:<n>` | `granted:<label>` -/
+  stage : String := ""
 deriving DecidableEq, Repr, Inhabited
+
+/-- `ResourceContext::label`, as a token. -/
+def Resource.label (r : Resource) : String :=
+  if r.elementId ≠ "" then r.elementId else if r.kind ≠ "" then r.kind else "the_Space"
 
 /-- What `EffectiveAuthority::resolve` loaded. -/
 structure EA where
@@ -301,32 +308,35 @@ def EA.allows (ea : EA) (perm : String) (r : Resource) (a : Auth) (now : Nat) : 
   ea.candidates.filter (fun c => candidateMatches c perm r a now) ++
   (ea.allowStatements perm r a now).map (statementCandidate ea)
 
-def EA.denied (ea : EA) (perm : String) : Authorization :=
+def EA.denied (ea : EA) (perm : String) (stage : String := "") : Authorization :=
   { decision := .deny, permission := perm, constraints := {}, obligations := ea.baselineObligations perm,
-    policyId := ea.policyId, policyVersion := ea.policyVersion, authoritiesUsed := [], unrestricted := false }
+    policyId := ea.policyId, policyVersion := ea.policyVersion, authoritiesUsed := [], unrestricted := false,
+    stage := stage }
 
 /-- `EffectiveAuthority::authorize`. -/
 def authorize (ea : EA) (perm : String) (res : Resource) (a : Auth) (now : Nat) : Authorization :=
-  if ea.principalStatus ≠ "active" then ea.denied perm
-  else if ea.spaceStatus = "suspended" then ea.denied perm
+  if ea.principalStatus ≠ "active" then ea.denied perm "inactive"
+  else if ea.spaceStatus = "suspended" then ea.denied perm "suspended"
   else
     let r := ea.effectiveResource res
-    if ea.denyMatches perm r a now then ea.denied perm
+    if ea.denyMatches perm r a now then ea.denied perm "explicit_deny"
     else
       let obligations :=
         (ea.allowStatements perm r a now).foldl (fun o s => o.merge s.obligations) (ea.baselineObligations perm)
       match minByKey Candidate.restrictiveness (ea.allows perm r a now) with
-      | none => ea.denied perm
+      | none => ea.denied perm ("nothing_grants:" ++ r.label)
       | some chosen =>
         if obligations.approvalsRequired > 0 then
           { decision := .requireApproval, permission := perm, constraints := chosen.constraints,
             obligations := obligations, policyId := ea.policyId, policyVersion := ea.policyVersion,
-            authoritiesUsed := [chosen.id], unrestricted := false }
+            authoritiesUsed := [chosen.id], unrestricted := false,
+            stage := "needs_approvals:" ++ toString obligations.approvalsRequired }
         else
           { decision := if chosen.constraints ≠ ({} : Constraints) then .allowWithConstraints else .allow,
             permission := perm, constraints := chosen.constraints, obligations := obligations,
             policyId := ea.policyId, policyVersion := ea.policyVersion,
-            authoritiesUsed := [chosen.id], unrestricted := chosen.isUnrestricted }
+            authoritiesUsed := [chosen.id], unrestricted := chosen.isUnrestricted,
+            stage := "granted:" ++ r.label }
 
 /-- `EffectiveAuthority::may_read` on the resource an element presents. -/
 def mayRead (ea : EA) (res : Resource) (a : Auth) (now : Nat) : Option Constraints :=
